@@ -179,6 +179,17 @@ _NORM: Dict[int, S] = {}
 _POLY: Dict[int, Poly] = {}
 
 
+def _reset():
+    _NORM.clear()
+    _POLY.clear()
+    Poly.ATOMS.clear()
+
+
+import sa.vg as _vg  # noqa: E402
+
+_vg._RESET_HOOKS.append(_reset)
+
+
 def poly(s: S) -> Poly:
     """Polynomial normal form of a value (atoms are normalised recursively)."""
     if s.id in _POLY:
@@ -271,6 +282,8 @@ def _norm(s: S) -> S:
     if c is not None:
         p, op = c
         return mk("cmp", op, p.to_sym())
+    if o in ("loopvar", "iter"):
+        return s  # keep the loop identity (tag) so that loop bodies stay attached
     args = [norm(a) for a in s.args]
     if o in ("&", "|", "and", "or", "^"):
         args = sorted(args, key=lambda x: x.id if isinstance(x, S) else -1)
@@ -355,15 +368,29 @@ class Leaf:
 BOOL_STRUCT_OPS = {"inv", "not", "&", "|", "and", "or", "<", "<=", ">", ">=", "==", "!=", "store", "phi", "ifexp"}
 
 
-def _is_boolish(s: S) -> bool:
+BOOL_LEAF_OPS = {"inv", "not", "&", "|", "and", "or", "<", "<=", ">", ">=", "==", "!="}
+
+
+def _is_boolish(s: S, depth=0) -> bool:
+    """Is the value boolean-structured (built from comparisons / connectives)?"""
     s = strip(s, bool_ctx=True)
-    if s.op in BOOL_STRUCT_OPS:
+    if depth > 40:
+        return False
+    if s.op in BOOL_LEAF_OPS:
         return True
-    if s.op == "call" and isinstance(s.args[0], S) and s.args[0].op in ("ext", "global") and s.args[0].args[0] in (
-        "torch.cat", "torch.concat", "torch.logical_and", "torch.logical_or", "torch.logical_not", "torch.stack"):
+    if s.op in ("phi", "ifexp"):
+        return _is_boolish(s.args[1], depth + 1) and _is_boolish(s.args[2], depth + 1)
+    if s.op in ("store", "sub", "loop"):
+        return _is_boolish(s.args[0], depth + 1)
+    if s.op == "meth" and s.args[1] in ("any", "all", "logical_and", "logical_or", "logical_not", "gt", "lt", "ge", "le", "eq", "ne"):
         return True
-    if s.op == "sub":
-        return _is_boolish(s.args[0])
+    if s.op == "call" and isinstance(s.args[0], S) and s.args[0].op in ("ext", "global"):
+        fn = s.args[0].args[0]
+        if fn in ("torch.logical_and", "torch.logical_or", "torch.logical_not", "torch.any", "torch.all"):
+            return True
+        if fn in ("torch.cat", "torch.concat", "torch.stack") and len(s.args) >= 2:
+            items = _seq_items(s.args[1])
+            return items is not None and all(_is_boolish(i, depth + 1) for i in items)
     return False
 
 
